@@ -1225,6 +1225,14 @@ func (e *executor) exec1(line, lean string) string {
 		if q.Entropy != ent {
 			l += " ENTROPY-CHANGED"
 		}
+		// the index belongs to the caller: reusing it must not change the password already decoded
+		before := showTokens(q.Tokens())
+		for i := range idx {
+			idx[i] = 0x5A
+		}
+		if showTokens(q.Tokens()) != before {
+			l += " RESULT-CHANGED-LATER"
+		}
 		return l + unknownField(unk)
 
 	case "wlcell":
